@@ -55,7 +55,9 @@ class Config:
         return self.name
 
 
-LIB_QUICK = [Config("lib"), Config("lib", []), Config("lib", ["adhoccounting", "adhoccountmodels"])]
+# quick tier: every cfg arm at least once, and every feature both with and without each of the other two groups it is interleaved with in Bdd::node
+# (counting without variablelist/frontend: 3rd; variablelist and frontend without counting: 4th) - a block slipped into a neighbouring cfg region shows
+LIB_QUICK = [Config("lib"), Config("lib", []), Config("lib", ["adhoccounting", "adhoccountmodels"]), Config("lib", ["frontend", "variablelist"])]
 LIB_ALL = [Config("lib")] + [Config("lib", fs) for fs in LIB_FEATURE_SETS if fs != LIB_DEFAULT]
 BIN_QUICK = [Config("bin")]
 BIN_ALL = [Config("bin"), Config("bin", []), Config("bin", ["variablelist"]), Config("bin", ["adhoccounting"]),
